@@ -168,7 +168,9 @@ def run_tlc(
         res.invariant_violated = m2.group(1)
     if res.invariant_violated:
         idx = txt.find("is violated")
-        res.error_trace = txt[idx : idx + 6000].splitlines()
+        tail = txt[idx:]
+        # keep the head (which invariant, first states) and the end (the state where the run stopped)
+        res.error_trace = (tail if len(tail) < 40000 else tail[:8000] + "\n...\n" + tail[-30000:]).splitlines()
     if coverage:
         for cm in re.finditer(r"<(\w+) line \d+, col \d+ to line \d+, col \d+ of module (\w+)>: (\d+):(\d+)", txt):
             res.coverage[cm.group(2) + "." + cm.group(1)] = int(cm.group(4))
